@@ -31,7 +31,11 @@ def scenarios(pid, tier, seed):
         return spawn_scen.fam_path(seed, big) + spawn_scen.fam_path_noslash(seed)
     if pid == "C17":
         return (spawn_scen.fam_alloc(seed, big) + spawn_scen.fam_path(seed, big)
-                + spawn_scen.fam_faults(seed, False)[::3] + spawn_scen.fam_wiring(seed, False)[::7])
+                + spawn_scen.fam_faults(seed, False)[::3] + spawn_scen.fam_wiring(seed, False)[::7]
+                # (an exec that fails once -- e.g. the program file is still open for writing, ETXTBSY -- and whatever the
+                # library does next)
+                + [dict(x, id=x["id"] + "-txtbsy", fault=dict(x["fault"], errno=26)) for x in spawn_scen.fam_faults(seed, False)
+                   if x.get("fault", {}).get("kind") == "execve" and x["fault"]["errno"] == 13])
     if pid == "C18":
         # (also through the PATH search: attempts that fail before the one that starts the program)
         return (spawn_scen.fam_signals(seed, big) + spawn_scen.fam_path(seed, False)[::3]
